@@ -225,3 +225,22 @@ def reset_display_ok(facts):
     except Unrecognised as ex:
         return False, f"not evaluable: {ex}"
     return writes == [("str", "\x1b[0m")] and r == ("ok", ("unit",)), f"writes {writes}, returns {r}"
+
+
+def eval_all(facts, crate, path, args, inline_crates=(), atoms=None):
+    """Abstract evaluation of a function on symbolic arguments with every call outside the inlinable crates kept as an
+    uninterpreted application (a boolean one is a case split): [(choices, result)] over all cases."""
+    import abseval
+
+    def unint(cal, a_, e):
+        if e.get("ty") == "bool":
+            return ("bool", ev.oracle(("app", cal, repr(a_))))
+        return ("app", cal) + tuple(a_)
+    a = {"*": unint}
+    a.update(atoms or {})
+    ev = abseval.Evaluator(facts, crate, a, inline_crates=tuple(inline_crates) or (crate,))
+
+    def run(choices):
+        ev.choices = choices
+        return ev.call_fn(crate, path, list(args))
+    return abseval.explore(run)
